@@ -437,6 +437,9 @@ func (f *ccmFam) doImport(r *hx.Run, op []string) string {
 		r.Viol("C22:not-executed-but-committed", fmt.Sprintf("import outcome %s created %d request records and %d leaves", out, nNewReq, len(xh)))
 	}
 	r.Hist("outcome." + out)
+	if srcReg && (out == "ok" || out == "reject:done" || out == "ok-pending") {
+		r.Hist(fmt.Sprintf("router%d.%s", srcRouter, out))
+	}
 	return fmt.Sprintf("%s done=%s req=%s xh=%s new=%d", out, done, req, xhStr, nNewReq)
 }
 
@@ -696,7 +699,7 @@ func (f *ccmFam) Gen(r *hx.Run) {
 							pv = 1
 						}
 					}
-					if proof == nil { // a message that was not committed in the synthetic state
+					if len(proof) == 0 { // a message that was not committed in the synthetic state
 						pv = 0
 					}
 				} else if ok && rt != 0 && rng.Bool() {
